@@ -20,7 +20,7 @@ func init() {
 			"(6) shape coupling: split, maybeSplitChild and the merge step change a node's item count and child count together (truncate i / i+1, insertAt i / i+1, removeAt i / i+1, items and children appended together); (7) length++ exactly when the insert added an item, length-- exactly when the remove found one, Clear zeroes root and length together. " +
 			"NOT decided: equivalence with a sorted set, node occupancy bounds and equal leaf depth, correctness of the iterate state machine for every tree shape and pivot — all data dependent; no sound static argument within reach (stated in DESIGN.md).",
 		Assumptions: []string{"Item.Less is a strict weak order (caller's obligation)"},
-		Floors:      map[string]int{"C03.wrapper-lock": 9, "C03.cow-ownership": 7, "C03.cow-primitives": 4, "C03.scan-entry": 10, "C03.wrapper-scan": 4, "C03.limit": 2, "C03.update": 2, "C03.shape-coupling": 3, "C03.length": 3},
+		Floors:      map[string]int{"C03.wrapper-lock": 9, "C03.cow-ownership": 7, "C03.cow-primitives": 4, "C03.scan-entry": 10, "C03.wrapper-scan": 4, "C03.limit": 2, "C03.update": 2, "C03.shape-coupling": 3, "C03.insert-replace": 1, "C03.length": 3},
 		Run:         runC03,
 	})
 }
@@ -831,6 +831,60 @@ func (x *btCtx) checkShapeAndLength(rel string) {
 			c.holds("C03.shape-coupling", "(*node).growChildAndRemove merge", fn.Pos(), "items.removeAt(i) with children.removeAt(i+1)")
 		}
 	}
+	// (6b) insert: a path that reports "replaced" (returns the old item of a slot) has stored the new item in
+	// that slot; a path that reports "added" (nil) has inserted the new item; otherwise the answer is the
+	// recursive call's on the mutable child
+	if fn := c.mustFn(rel, "(*node).insert"); fn != nil {
+		traces, _ := c.Trace(fn, TraceConfig{Inline: noInl})
+		ok, n := true, 0
+		item := "$" + fn.Params[1].Name()
+		for _, t := range traces {
+			if t.End != EndReturn {
+				continue
+			}
+			n++
+			r := t.Ret[0]
+			switch {
+			case r.isNilConst():
+				added := false
+				for _, e := range t.Events {
+					if _, is := helperOn(e, "insertAt", "items"); is && len(e.Args) == 3 && e.Args[2].Key() == item {
+						added = true
+					}
+				}
+				if !added && ok {
+					ok = false
+					c.violated("C03.insert-replace", "(*node).insert", fn.Pos(), "insert reports that an item was added (nil) on a path that does not insert the new item", c.witness(t, len(t.Events)-1)...)
+				}
+			case r.Kind == KInit && r.Args[0].Kind == KIndexAddr:
+				stored := false
+				for _, e := range t.Events {
+					if e.Kind == EvStore && e.Addr.Key() == r.Args[0].Key() && e.Val.Key() == item {
+						stored = true
+					}
+				}
+				if !stored && ok {
+					ok = false
+					c.violated("C03.insert-replace", "(*node).insert", fn.Pos(), "insert returns the old item of a slot (\"replaced\") without storing the new item in that slot: the key keeps its stale item although the caller is told it was replaced (e.g. when the key is the median promoted by a split on the way down)", c.witness(t, len(t.Events)-1)...)
+				}
+			default:
+				rec := false
+				for _, e := range t.Events {
+					if e.Kind == EvCall && e.Callee != nil && e.Callee.Name() == "insert" && e.Res.Key() == r.Key() && len(e.Args) >= 2 && e.Args[1].Key() == item {
+						rec = true
+					}
+				}
+				if !rec && ok {
+					ok = false
+					c.violated("C03.insert-replace", "(*node).insert", fn.Pos(), "insert returns something that is neither nil, the old item of the slot it overwrote, nor the result of inserting the same item into the child: "+c.short(r.Key()), c.witness(t, len(t.Events)-1)...)
+				}
+			}
+		}
+		if ok && n > 0 {
+			c.holds("C03.insert-replace", "(*node).insert", fn.Pos(), fmt.Sprintf("%d paths", n))
+		}
+	}
+
 	// (7) length accounting
 	lengthF := c.mustField(rel, "BTree", "length")
 	rootF := c.mustField(rel, "BTree", "root")
